@@ -70,6 +70,31 @@ def cases(rng, tier):
             h = bytearray(f0)
             h[5] ^= 1 << bit
             yield ("file %s %s c" % (rng.choice(["mem", "fd"]), hexs(h)), "feature-bit-flip")
+    # --- files crafted so that the running checksum is exactly zero at a 256-byte chunk boundary (the register has no
+    # final inversion: appending the little-endian CRC of what came before brings it to zero): alterations in the
+    # bytes of the NEXT chunk that sit where the checksum field sits in the first one (offsets 6..9 of the chunk)
+    for k in ((1, 2) if not thorough else (1, 2, 3, 5)):
+        L = 256 * k + rng.choice([40, 266])
+        body = bytearray(rng.randrange(256) for _ in range(L - 10 - 3))
+        f = bytearray(skyb.container([(3, bytes(body))], version=2, with_crc=True))
+        cut = 256 * k
+        c0 = skyb.ap_crc32(bytes(f[:6]) + b"\0\0\0\0" + bytes(f[10:cut - 4]))
+        f[cut - 4:cut] = bytes([c0 & 255, (c0 >> 8) & 255, (c0 >> 16) & 255, (c0 >> 24) & 255])
+        assert skyb.ap_crc32(bytes(f[:6]) + b"\0\0\0\0" + bytes(f[10:cut])) == 0
+        f[cut + 6:cut + 10] = b"\0\0\0\0"
+        c = skyb.ap_crc32(bytes(f[:6]) + b"\0\0\0\0" + bytes(f[10:]))
+        f[6:10] = bytes([c & 255, (c >> 8) & 255, (c >> 16) & 255, (c >> 24) & 255])
+        for r in ("mem", "fd"):
+            yield ("file %s %s v,c" % (r, hexs(f)), "zero-register-valid")
+        for off in range(cut + 4, cut + 12):
+            for bit in (0, 7):
+                g = bytearray(f)
+                g[off] ^= 1 << bit
+                yield ("file %s %s c" % (rng.choice(["mem", "fd"]), hexs(g)), "zero-register-flip")
+        g = bytearray(f)
+        g[cut + 6:cut + 10] = b"\xde\xad\xbe\xef"
+        for r in ("mem", "fd"):
+            yield ("file %s %s c" % (r, hexs(g)), "zero-register-window")
     # --- corrupted files
     lens = [10, 13, 24, 200, 255, 256, 257, 266, 511, 512, 513, 522] + ([768, 1024, 1025, 1290] if thorough else [768])
     for L in lens:
